@@ -322,12 +322,17 @@ func (o *vobj) WriteAt(p []byte, off int64) (int, error) {
 	} else {
 		o.v.mu.Lock()
 		need := int(off) + len(p)
+		if len(p) == 0 {
+			need = 0 // like pwrite(2): writing nothing does not extend the file
+		}
 		if need > len(o.node.data) {
 			nd := make([]byte, need)
 			copy(nd, o.node.data)
 			o.node.data = nd
 		}
-		n = copy(o.node.data[off:], p)
+		if len(p) > 0 {
+			n = copy(o.node.data[off:], p)
+		}
 		o.v.mu.Unlock()
 	}
 	o.end("W", off, n, err)
